@@ -76,7 +76,6 @@ ALLOC_ENS = [
 UNIT = dict(
     name="core_trackers",
     props=["C12", "C13"],
-    implicit_props=["C12"],
     features=["allocator_api"],
     uses=["std::collections::HashMap", "vstd::std_specs::hash::*", "vstd::set_lib::*"],
     prelude=["core_types.rs", "str_ext.rs", "hashmap_ext.rs"],
